@@ -600,6 +600,12 @@ def check_omega_scale(ck, f, inst, kind):
 # operator forms
 # -------------------------------------------------------------------------------------------------
 
+def shortcut_ifs(view):
+    """ids of the if-statements that are an early-out for an empty system (see empty_shortcut_returns)"""
+    rets = empty_shortcut_returns(view)
+    return {n["i"] for n in walk(view.fn.body) if n.get("k") == "If" and any(x.get("i") in rets for x in walk(n.get("then") or {}))}
+
+
 def check_operator_form(ck, fns, inst, kind):
     rule = "E5.operator-form"
     ap = fns["apply"]
@@ -615,12 +621,15 @@ def check_operator_form(ck, fns, inst, kind):
         if kind in ("jacobi", "polynomial"):
             if "init_numeric" in fns:
                 ini = fns["init_numeric"]
-                iv = VecEval(FnView(ini), {}, diag_fields=diag_fields, methods=fns)
+                iview = FnView(ini)
+                iv = VecEval(iview, {}, diag_fields=diag_fields, methods=fns)
+                iv.skip_if = shortcut_ifs(iview)
                 iv.run(ini.body.get("s", []))
                 for k, val in iv.env.items():
                     env[k] = val
                 diag_fields |= iv.diag_fields
         ev = VecEval(view, env, diag_fields=diag_fields, methods=fns)
+        ev.skip_if = shortcut_ifs(view)
         loopinfo = {}
 
         def loop_hook(ve, loop):
@@ -757,7 +766,7 @@ def check_numeric(ck, S, fns, inst, kind):
         stm = set(num["stmts"].get(m, []))
         # statement ids may be nested call nodes: lift to CFG elements
         stop = {e for e in stmts_of(view) if e in stm}
-        _, esc = view.flow_from(None, stop=stop)
+        _, esc = view.flow_from(None, stop=stop | empty_shortcut_returns(view))
         ok = bool(stop) and not esc
         if not ok and m in num.get("opaque", set()):
             ck.incomplete("E8.numeric-refresh", "%s: %s is handed to a callee whose body is not available in init_numeric(); whether it is recomputed there is not decided" % (key, sh(m)))
@@ -1837,6 +1846,258 @@ def check_partial_fill_reinit(ck, facts, cls, inst):
 
 
 # -------------------------------------------------------------------------------------------------
+# a work array that a gather routine fills only at the structural non-zeros is in its reset state at every gather
+# -------------------------------------------------------------------------------------------------
+
+def check_scratch_reset(ck, facts, f, inst, inl):
+    """E8.scratch-reset on one function (AmaVanka::init_numeric): forward may-dataflow over the CFG with the state
+    clean / dirty per work array.  clean: zero-initialised declaration (std::vector<T> v(n), v(n, 0)), whole-array
+    memset / std::fill / assign, or a loop nest that does nothing but store the constant 0 into the array;
+    dirty: any other store, and every callee that receives the array through a non-const pointer;
+    obligation at every call of a *gather* routine (a callee all of whose stores through that parameter are conditional on a
+    pattern match, directly or through the gather routines it calls): the array is clean on every path reaching it —
+    the path from the previous iteration of an enclosing loop (`continue` included) is such a path."""
+    rule = "E8.scratch-reset"
+    # private member helpers of the class are inlined; the kernels of AmaVankaCore (gather, scatter_add, ...) stay calls
+    f = inl.inline(f, want=lambda call, cal: call.get("k") == "MCall" and cal.name not in ANCHORED)
+    view = FnView(f)
+
+    def array_of(n, depth=0):
+        """decl id of the local std::vector / array a pointer expression points into (base pointer only), else None"""
+        n = strip(n)
+        if depth > 8:
+            return None
+        if n.get("k") == "Ref" and n.get("dk") == "local":
+            var = view.locals.get(n["d"])
+            if var is None:
+                return None
+            ty = f.type(var.get("t"))
+            if "std::vector" in ty or "[" in ty:
+                return n["d"]
+            if "*" in ty and not view.writes.get(n["d"]) and var.get("init") is not None:
+                return array_of(var["init"], depth + 1)
+            return None
+        if n.get("k") == "MCall" and n.get("n") == "data" and n.get("obj") is not None:
+            return array_of(n["obj"], depth + 1)
+        if n.get("k") == "Un" and n.get("op") == "&":
+            e = strip(n["e"])
+            if e.get("k") in ("Index", "OpCall"):
+                b = e["b"] if e.get("k") == "Index" else e["a"][0]
+                ix = view.value(e["idx"] if e.get("k") == "Index" else e["a"][1])
+                if ix.get("k") == "Int" and int(ix["v"]) == 0:
+                    return array_of(b, depth + 1)
+        return None
+
+    partial_memo = {}
+
+    def partial_param(cal, pos, depth=0):
+        """True: every store through parameter pos of callee `cal` is conditional (directly, or done by gather routines it
+        hands the pointer to); False: some store is unconditional; None: unknown / no store"""
+        key = (cal.d.get("decl"), pos)
+        if key in partial_memo:
+            return partial_memo[key]
+        partial_memo[key] = None
+        if cal.body is None or pos >= len(cal.params) or depth > 4:
+            return None
+        cv = FnView(cal)
+        pd = cal.params[pos]["d"]
+        res = []
+        for n in walk(cal.body):
+            tgt = None
+            if n.get("k") == "Assign":
+                tgt = strip(n["lhs"])
+            elif n.get("k") == "OpCall" and n.get("op") in ("=", "+=", "-=") and n.get("a"):
+                tgt = strip(n["a"][0])
+            while tgt is not None and tgt.get("k") == "Index":
+                b = strip(tgt["b"])
+                if b.get("k") == "Ref" and b.get("d") == pd:
+                    q = cv.parent.get(n.get("i"))
+                    cond = False
+                    while q is not None:
+                        if q.get("k") in ("If", "Cond", "Switch"):
+                            cond = True
+                        q = cv.parent.get(q.get("i"))
+                    res.append(cond)
+                    break
+                tgt = b if b.get("k") == "Index" else None
+            if n.get("k") in ("Call", "MCall"):
+                for i2, a in enumerate(n.get("a", [])):
+                    av = strip(a)
+                    if av.get("k") == "Ref" and av.get("d") == pd:
+                        pt = n.get("pt") or []
+                        ty = cal.type(pt[i2]) if i2 < len(pt) else ""
+                        if ty.strip().startswith("const "):
+                            continue
+                        c2 = inl.bydecl.get(n.get("cdecl"))
+                        r2 = partial_param(c2, i2, depth + 1) if c2 is not None else None
+                        if r2 is not None:
+                            res.append(r2)
+                        elif c2 is None or c2.body is None:
+                            res.append(False)       # an unknown callee may store anywhere
+        out = None if not res else all(res)
+        partial_memo[key] = out
+        return out
+
+    def zeroing_param(cal, pos):
+        """the callee stores through parameter pos, unconditionally, nothing but the constant 0 (a reset helper)"""
+        if cal is None or cal.body is None or pos >= len(cal.params):
+            return False
+        cv = FnView(cal)
+        pd = cal.params[pos]["d"]
+        stores = 0
+        for n in walk(cal.body):
+            if n.get("k") in ("Call", "MCall") and any(strip(a).get("k") == "Ref" and strip(a).get("d") == pd for a in n.get("a", [])):
+                nm = (n.get("callee") or n.get("n") or "").rsplit("::", 1)[-1]
+                if nm in ("memset", "fill", "fill_n"):
+                    stores += 1
+                    continue
+                return False
+            if n.get("k") != "Assign":
+                continue
+            t = strip(n["lhs"])
+            if t.get("k") == "Index" and strip(t["b"]).get("k") == "Ref" and strip(t["b"]).get("d") == pd:
+                rv = cv.value(n["rhs"])
+                while rv.get("k") in ("Construct", "TempObj") and len(rv.get("a", [])) == 1:
+                    rv = cv.value(rv["a"][0])
+                zero = (rv.get("k") in ("Int", "Float") and float(rv["v"]) == 0.0) or (rv.get("k") in ("Construct", "TempObj", "ValueInit") and not rv.get("a"))
+                q = cv.parent.get(n.get("i"))
+                while q is not None:
+                    if q.get("k") in ("If", "Cond", "Switch"):
+                        return False
+                    q = cv.parent.get(q.get("i"))
+                if not zero or n.get("op") != "=":
+                    return False
+                stores += 1
+        return stores > 0
+
+    def zero_nest(n, arr):
+        """the statement is a loop nest that only stores the constant 0 into array arr"""
+        if n.get("k") not in ("For", "While"):
+            return False
+        body = n.get("body") or {}
+        st = pcmodel.flat(body.get("s", []) if body.get("k") == "Block" else [body])
+        st = [x for x in st if not (n.get("k") == "While" and pcmodel.is_step(strip(x)))]
+        if len(st) != 1:
+            return False
+        x = strip(st[0])
+        if x.get("k") in ("For", "While"):
+            return zero_nest(x, arr)
+        if x.get("k") == "Assign" and x.get("op") == "=" and strip(x["lhs"]).get("k") in ("Index", "OpCall"):
+            t = strip(x["lhs"])
+            b = t["b"] if t.get("k") == "Index" else t["a"][0]
+            rv = view.value(x["rhs"])
+            while rv.get("k") in ("Construct", "TempObj") and len(rv.get("a", [])) == 1:
+                rv = view.value(rv["a"][0])
+            zero = (rv.get("k") in ("Int", "Float") and float(rv["v"]) == 0.0) or (rv.get("k") in ("Construct", "TempObj", "ValueInit") and not rv.get("a"))
+            return zero and array_of(b) == arr
+        return False
+
+    # events per CFG element
+    events = {}        # stmt id -> [(arr, 'clean' | 'dirty' | 'gather', node)]
+    gathers = []
+    zero_ids = {}
+    for n in walk(f.body):
+        if n.get("k") in ("For", "While"):
+            for arr in [d for d, var in view.locals.items() if "std::vector" in f.type(var.get("t")) or "[" in f.type(var.get("t"))]:
+                if zero_nest(n, arr):
+                    inner = {x.get("i") for x in walk(n)}
+                    zero_ids.setdefault(arr, set()).update(inner)
+                    # the reset takes effect where the nest is entered: its first CFG element
+                    first = None
+                    for b in view.cfg.blocks.values():
+                        for e in b["el"]:
+                            if e in inner and (first is None or (view.byid[e].get("l") or 0, e) < (view.byid[first].get("l") or 0, first)):
+                                first = e
+                    init = n.get("init")
+                    anchor = init.get("i") if isinstance(init, dict) and init.get("i") is not None and view.pos(init.get("i")) else first
+                    if anchor is not None:
+                        events.setdefault(anchor, []).append((arr, "clean", n))
+    for b in view.cfg.blocks.values():
+        for e in b["el"]:
+            n = view.byid.get(e)
+            if n is None:
+                continue
+            k = n.get("k")
+            if k == "Decl":
+                for var in n.get("vars", []):
+                    ty = f.type(var.get("t"))
+                    if "std::vector" in ty:
+                        init = strip(var.get("init") or {})
+                        args = init.get("a", []) if init.get("k") in ("Construct", "TempObj") else []
+                        z = len(args) == 1 or (len(args) == 2 and (lambda rv: rv.get("k") in ("Int", "Float") and float(rv["v"]) == 0.0 or (rv.get("k") in ("Construct", "TempObj") and (not rv.get("a") or (len(rv["a"]) == 1 and view.value(rv["a"][0]).get("k") in ("Int", "Float") and float(view.value(rv["a"][0])["v"]) == 0.0))))(view.value(args[1])))
+                        events.setdefault(e, []).append((var["d"], "clean" if z else "dirty", n))
+            elif k in ("Call", "MCall"):
+                nm = (n.get("callee") or n.get("n") or "").rsplit("::", 1)[-1]
+                for pos, a in enumerate(n.get("a", [])):
+                    arr = array_of(a)
+                    if arr is None:
+                        continue
+                    pt = n.get("pt") or []
+                    ty = f.type(pt[pos]) if pos < len(pt) else ""
+                    if ty.strip().startswith("const "):
+                        continue
+                    if nm == "memset" and pos == 0 or nm in ("fill", "fill_n") and pos == 0:
+                        events.setdefault(e, []).append((arr, "clean", n))
+                        continue
+                    cal = inl.bydecl.get(n.get("cdecl"))
+                    if zeroing_param(cal, pos):
+                        events.setdefault(e, []).append((arr, "clean", n))
+                        continue
+                    pp = partial_param(cal, pos) if cal is not None else None
+                    if pp is True:
+                        events.setdefault(e, []).append((arr, "gather", n))
+                        gathers.append((e, arr, n))
+                    else:
+                        events.setdefault(e, []).append((arr, "dirty", n))
+                if k == "MCall" and n.get("n") in ("assign",) and n.get("obj") is not None and array_of(n["obj"]) is not None:
+                    events.setdefault(e, []).append((array_of(n["obj"]), "clean", n))
+            elif k == "Assign" and strip(n["lhs"]).get("k") in ("Index", "OpCall"):
+                t = strip(n["lhs"])
+                b2 = t["b"] if t.get("k") == "Index" else t["a"][0]
+                arr = array_of(b2)
+                if arr is not None and e not in zero_ids.get(arr, ()):
+                    events.setdefault(e, []).append((arr, "dirty", n))
+    if not gathers:
+        ck.incomplete(rule, "%s: no call of a gather routine (a callee that stores into a work array only under a pattern match) found" % inst)
+        return
+    # forward may-dirty dataflow
+    arrs = sorted({a for e, a, n in gathers})
+    state_in = {view.cfg.entry: {a: False for a in arrs}}       # dirty?
+    at_gather = {}
+    work = [view.cfg.entry]
+    while work:
+        b = work.pop()
+        st = dict(state_in[b])
+        for e in view.cfg.blocks[b]["el"]:
+            for arr, what, n in events.get(e, []):
+                if arr not in st:
+                    continue
+                if what == "gather":
+                    at_gather[e] = at_gather.get(e, False) or st[arr]
+                    st[arr] = True
+                else:
+                    st[arr] = (what == "dirty")
+        for s2 in view.succ(b):
+            old = state_in.get(s2)
+            new = {a: (st[a] or (old or {}).get(a, False)) for a in arrs}
+            if old is None or new != old:
+                state_in[s2] = new
+                work.append(s2)
+    seen = {}
+    for e, arr, n in gathers:
+        nm = view.locals[arr]["n"]
+        key = "%s/%s" % (inst, nm)
+        seen[key] = seen.get(key, 0) + 1
+        if seen[key] > 1:
+            key += "#%d" % seen[key]
+        dirty = at_gather.get(e, False)
+        ck.ob(rule, key, not dirty,
+              "the work array %s is zero-initialised and re-zeroed on every path between two calls of %s (which writes the structural non-zeros only)" % (nm, n.get("callee", "").rsplit("::", 1)[-1]) if not dirty else
+              "%s (line %s) fills %s only at the structural non-zeros, but a path reaches it on which %s still holds the data of an earlier step (e.g. from a previous iteration that left the loop body early, by-passing the loop that re-zeroes the array): "
+              "the next local matrix is assembled from stale entries" % (n.get("callee", "").rsplit("::", 1)[-1], n.get("l"), nm, nm), f.file, n.get("l"))
+
+
+# -------------------------------------------------------------------------------------------------
 # wrappers
 # -------------------------------------------------------------------------------------------------
 
@@ -1946,6 +2207,7 @@ def run(tier):
     ck.rule("E4.ilu-level-fold", "ILU(p) level of fill lev(i,k) = min_j lev(i,j) + lev(j,k) + 1: _insert folds a duplicate insertion with MIN on every path where the entry exists (neither keep-first nor overwrite) and stores (col, level) for a new entry; factorize_symbolic passes lev(L_ij) + lev(U_jk) + 1 of the two merged entries with the column of the same U entry, inserts iff level <= p, and starts the pattern of A at level 0; breaks for p >= 2 on patterns where an entry is reached through two paths of different level (pattern too small: LU does not match A on the level-p pattern)", 7)
     ck.rule("E3.merge-cursor", "numeric ILU factorisation (scalar and blocked): every cursor into a sorted column-index row (k over U_j, pl over L_i, pu over U_i) advances either as the increment of a loop over / skipping entries, or in straight code only under a successful match col_idx[cursor] == wanted column; breaks for structurally unsymmetric patterns (U_j has an entry right of column i but none at i: that entry is skipped and its Schur update lost); a cursor that skips up to a target taken from another traversal is (re)positioned inside the loop in which that traversal restarts (breaks for patterns with triangles / ILU(p>0))", 16)
     ck.rule("E8.partial-fill-reinit", "a vector member that apply() reads and that a function reached from init_numeric() fills only partially (a pointer into it is handed to a gather routine all of whose stores are control-dependent on a match test) is re-initialised over its whole extent (memset / std::fill / assign / full loop over size()) on every path before, in that function or in init_numeric before the call; breaks on every second init_numeric() on one object (Vanka local matrices: the zero blocks hold the previous inverse)", 4)
+    ck.rule("E8.scratch-reset", "AmaVanka::init_numeric: the local-matrix work array, which is shared by all macros and which the gather routine fills at the structural non-zeros only, is in its zeroed state at every gather: zero-initialised where it is declared and re-zeroed on every path from any other write to the next gather — including the paths that leave the macro loop body early (`continue`); breaks with skip_singular for every macro that follows a singular one and whose local matrix has structural zeros (assembled from the inf/NaN left by the failed inversion)", 2)
     ck.rule("E8.symbolic-structure-only", "init_symbolic() (transitively) does not read matrix values (val, extract_diag, apply)", 11)
     ck.rule("E5.operator-form", "apply() evaluated symbolically as a linear operator equals the documented one: Jacobi w D^-1 (omega once), Scale w, Diagonal diag, Matrix M, Polynomial start value M~^-1 def, recurrence x <- (I - M~^-1 A) x + M~^-1 def, _m iterations; breaks for omega != 1 / every input", 9)
 
@@ -2058,6 +2320,26 @@ def run(tier):
     for c in vcls:
         blk = "BCSR" if "SparseMatrixBCSR" in c else "CSR"
         check_partial_fill_reinit(ck, vfacts, c, "Vanka<SaddlePointMatrix<%s>>" % blk)
+
+    if inl.log:
+        ck.note("helpers inlined into the anchored functions (body + CFG, lib/norm_c08.py): %s" % ", ".join(sorted({"%s <- %s" % (a.rsplit("::", 1)[-1], b) for a, b, l, m in inl.log})))
+    # AmaVanka: the local matrix work array shared by all macros
+    afacts = featlib.extract("tu/c08_amavanka.cpp", files=featlib.repo_path(SOLVER) + "(amavanka|amavanka_base).hpp", extra=extra)
+    ck.tu(afacts)
+    for e in (afacts.errors_in_repo() + afacts.errors_outside_repo())[:3]:
+        ck.incomplete("E8.scratch-reset", "driver TU tu/c08_amavanka.cpp does not compile: %s:%d %s" % (e["file"], e["line"], e["msg"][:200]))
+    ainl = norm_c08.Inliner(afacts)
+    acls = sorted({f.cls for f in afacts.functions if f.tk != "pattern" and re.match(r"FEAT::Solver::AmaVanka<", f.cls)})
+    if not acls:
+        ck.incomplete("E8.scratch-reset", "no instantiation of Solver::AmaVanka found")
+    for c in acls:
+        cand = [f for f in afacts.functions if f.tk != "pattern" and f.cls == c and f.name == "init_numeric"]
+        m = re.search(r"AmaVanka<FEAT::LAFEM::(\w+)<(?:FEAT::LAFEM::)?(\w+)", c)
+        ainst = "AmaVanka<%s%s>::init_numeric" % (m.group(1), "<%s>" % m.group(2) if m and m.group(1) == "SaddlePointMatrix" else "<%s>" % m.group(2)) if m else c
+        if len(cand) != 1:
+            ck.incomplete("E8.scratch-reset", "%s: init_numeric vanished" % ainst)
+            continue
+        check_scratch_reset(ck, afacts, cand[0], ainst, ainl)
 
     ck.assume("matrices are well formed CSR/BCSR with sorted column indices and a stored non-zero diagonal entry in every row (documented requirement of SOR/SSOR/ILU)")
     ck.assume("filter_def/filter_cor are treated as identities in the operator forms; their placement is decided by E7.filter-follows")
